@@ -459,12 +459,13 @@ impl Default for SchemaKnobs {
     }
 }
 
-const OBJECT_NAMES: [&str; 10] = ["Dog", "Cat", "Person", "Organization", "Droid", "Starship", "Review", "Post", "Comment", "Tag"];
+// two names that Rust normalization (UpperCamelCase) changes: `HTTPError` -> `HttpError`, `audit_entry` -> `AuditEntry`
+const OBJECT_NAMES: [&str; 12] = ["Dog", "Cat", "Person", "Organization", "Droid", "Starship", "Review", "Post", "Comment", "Tag", "HTTPError", "audit_entry"];
 const IFACE_NAMES: [&str; 4] = ["Animal", "Named", "Node", "Entity"];
 const UNION_NAMES: [&str; 3] = ["SearchResult", "Pet", "Subject"];
-const ENUM_NAMES: [&str; 4] = ["Episode", "Color", "Status", "Unit"];
+const ENUM_NAMES: [&str; 6] = ["Episode", "Color", "Status", "Unit", "HTTPMethod", "sort_order"];
 const SCALAR_NAMES: [&str; 3] = ["DateTime", "URL", "JSON"];
-const INPUT_NAMES: [&str; 5] = ["Filter", "Range", "Point", "Options", "Tree"];
+const INPUT_NAMES: [&str; 7] = ["Filter", "Range", "Point", "Options", "Tree", "HTTPOptions", "page_input"];
 const FIELD_NAMES: [&str; 27] = [
     "name", "barks", "meows", "age", "weight", "isActive", "createdAt", "snake_case_field", "ownerId", "homepage",
     "score", "title", "body", "SCREAMING", "PascalField", "_leading", "field2", "nickName", "e_mail", "x",
